@@ -11,6 +11,7 @@ CONSTANTS
   DecFails = {FALSE}
   MaxCb = 1
   MaxTrig = 2
+  MaxFire = 3
   CbOn = {1, 3}
   TimerOn = {2, 3}
   Ops = {"request", "complete", "abort", "cabort", "qabort", "gabort", "settle"}
